@@ -22,7 +22,7 @@ StreamLists == { << [id |-> "a", entries |-> es] >> : es \in EntryLists }
                \cup { << [id |-> "a", entries |-> e1], [id |-> "b.c", entries |-> e2] >> :
                          e1 \in (IF Big THEN EntryLists ELSE SmallLists), e2 \in SmallLists }
 Wins    == { <<NA, NA>>, <<0, 86400>>, <<NA, 86400>>, <<0, NA>> }
-Regions == { "none", "geom", "feat" }
+Regions == { "none", "geom", "feat" } \cup (IF Big THEN {"feat2"} ELSE {})
 
 Contexts == { [win |-> w, region |-> r, streams |-> ss] : w \in Wins, r \in Regions, ss \in StreamLists }
 SecondContexts == { [win |-> <<86400, 172800>>, region |-> r, streams |-> << [id |-> "a", entries |-> es] >>] :
